@@ -887,7 +887,7 @@ fn one_file(out: &mut Out, r: &mut Rng, b: &[u8], f: &Frame, n_cfg: usize, oracl
 }
 
 fn gen(r: &mut Rng, tier: Tier, out: &mut Out) {
-	let scale = if tier == Tier::Thorough { 25 } else { 1 };
+	let scale = if tier == Tier::Thorough { 8 } else { 1 };
 	// ---- 0. fixed regression lines
 	regression_lines(out);
 	// ---- 1. javac corpus
@@ -918,6 +918,34 @@ fn gen(r: &mut Rng, tier: Tier, out: &mut Out) {
 				syn.push((b, f));
 			}
 			_ => out.stats.hit("file:synthetic-not-framed"),
+		}
+	}
+	// ---- 2b. exhaustive small scopes (thorough): every subset of the class-level kinds present, every decline pattern of the members
+	if tier == Tier::Thorough {
+		for (b, f) in syn.iter().filter(|x| x.1.fields.len() + x.1.methods.len() <= 5).take(6) {
+			let mut kinds: Vec<&str> = f.attrs.iter().map(|a| match a { c17frame::CAttr::Leaf(a) => if c17frame::L_CLASS.contains(&a.k) { a.k } else { "other" }, _ => "record" }).collect();
+			kinds.sort(); kinds.dedup();
+			kinds.truncate(7);
+			for bits in 0..(1u32 << kinds.len()) {
+				let mut m = Mask(0);
+				for (j, k) in kinds.iter().enumerate() { if bits >> j & 1 == 1 { m = Mask(m.0 | 1 << TAGS.iter().position(|t| t == k).unwrap()); } }
+				let mut cfg = Cfg::full();
+				cfg.cls = Some(m);
+				emit_stream(out, "read", b, std::slice::from_ref(f), std::slice::from_ref(&cfg));
+				out.stats.hit("exhaustive:class-mask");
+			}
+			let (nf, nm) = (f.fields.len(), f.methods.len());
+			for bits in 0..(1u32 << (nf + 2 * nm)) {
+				let mut cfg = Cfg::full();
+				cfg.fields = (0..nf).map(|j| if bits >> j & 1 == 1 { None } else { Some(Mask::ALL) }).collect();
+				cfg.methods = (0..nm).map(|j| match bits >> (nf + 2 * j) & 3 {
+					0 => Some(MethodCfg::FULL), 1 => None,
+					2 => Some(MethodCfg { mask: Mask::ALL, code: true, code_v: None }),
+					_ => Some(MethodCfg { mask: Mask::ALL, code: false, code_v: Some(Mask::ALL) }) }).collect();
+				emit_stream(out, "read", b, std::slice::from_ref(f), std::slice::from_ref(&cfg));
+				emit_stream(out, "oracle-projection", b, std::slice::from_ref(f), std::slice::from_ref(&cfg));
+				out.stats.hit("exhaustive:member-declines");
+			}
 		}
 	}
 	// ---- 3. streams of 2..5 concatenated files, each read with its own configuration
@@ -992,17 +1020,22 @@ fn regression_lines(out: &mut Out) {
 	// a method whose visitor asks for code and answers `visit_code() -> None`, followed by another attribute, another
 	// method and class attributes (d898d56: the Code body used to stay unread)
 	let mut r = Rng::new(17);
-	for _ in 0..40 {
-		let (b, _) = c17asm::gen_class(&mut r, &c17asm::Opts { rich: true, ..Default::default() });
+	let mut best: Option<(Vec<u8>, Frame)> = None;
+	for _ in 0..400 {
+		let (b, _) = c17asm::gen_class(&mut r, &c17asm::Opts::default());
 		let Some(f) = c17frame::frame(&b) else { continue };
-		let has_code = f.methods.iter().any(|m| m.attrs.iter().any(|a| matches!(a, c17frame::MAttr::Code(_))));
-		if !has_code || f.methods.len() < 2 { continue; }
+		// a Code attribute that is followed by another attribute of the same method, and a method after it
+		let ok = f.methods.len() >= 2 && f.methods[..f.methods.len() - 1].iter().any(|m|
+			m.attrs.iter().position(|a| matches!(a, c17frame::MAttr::Code(_))).map(|p| p + 1 < m.attrs.len()).unwrap_or(false));
+		if ok && well_formed(&f) && best.as_ref().map(|x| b.len() < x.0.len()).unwrap_or(true) { best = Some((b, f)); }
+	}
+	if let Some((b, f)) = best {
 		let mut cfg = Cfg::full();
 		cfg.methods = f.methods.iter().map(|_| Some(MethodCfg { mask: Mask::ALL, code: true, code_v: None })).collect();
 		emit_stream(out, "read", &b, std::slice::from_ref(&f), std::slice::from_ref(&cfg));
 		emit_stream(out, "oracle-projection", &b, std::slice::from_ref(&f), std::slice::from_ref(&cfg));
+		out.op("oracle-decline-local", &[Sexp::bytes(&b), f.sexp(), Cfg::full().sexp(), tag("code"), nat(0)]);
 		out.stats.hit("regression:visit_code-None");
-		break;
 	}
 }
 
